@@ -1,3 +1,4 @@
+(* counts are usize values: N (never negative) *)
 (* Model/Script.v — closures given to try_parse, as a deep embedding of the reading API
    ("all closures built from the buffer's reading operations ... ending in None or Some").
    Hand-modelled glue: the closure language; its interpreter calls the model's read functions. *)
@@ -5,7 +6,7 @@ From FB Require Import Sem.Base Model.Fb.
 Open Scope Z_scope.
 
 Inductive rstep :=
-| SByte | STryByte | SBytes (n : Z) | STryBytes (n : Z) | SCopy (k : Z) | STryExact (k : Z) | SAll
+| SByte | STryByte | SBytes (n : N) | STryBytes (n : N) | SCopy (k : N) | STryExact (k : N) | SAll
 | SNested (body : list rstep) (some : bool).
 
 Definition enc_bytes (l : list Z) : list Z := zlen l :: l.
@@ -19,10 +20,10 @@ Fixpoint run_step (s : rstep) : M fb (list Z) :=
   match s with
   | SByte => b <- read_byte chk ;; ret [b]
   | STryByte => o <- try_read_byte chk ;; ret (match o with None => [0] | Some b => [1; b] end)
-  | SBytes n => l <- read_bytes chk n ;; ret (enc_bytes l)
-  | STryBytes n => o <- try_read_bytes chk n ;; ret (enc_opt_bytes o)
-  | SCopy k => r <- read_and_copy_bytes chk (repeat 221 (Z.to_nat k)) ;; ret (fst r :: enc_bytes (snd r))
-  | STryExact k => r <- try_read_exact chk (repeat 221 (Z.to_nat k)) ;;
+  | SBytes n => l <- read_bytes chk (Z.of_N n) ;; ret (enc_bytes l)
+  | STryBytes n => o <- try_read_bytes chk (Z.of_N n) ;; ret (enc_opt_bytes o)
+  | SCopy k => r <- read_and_copy_bytes chk (repeat 221 (N.to_nat k)) ;; ret (fst r :: enc_bytes (snd r))
+  | STryExact k => r <- try_read_exact chk (repeat 221 (N.to_nat k)) ;;
                    ret ((match fst r with None => 0 | Some _ => 1 end) :: enc_bytes (snd r))
   | SAll => l <- read_all chk ;; ret (enc_bytes l)
   | SNested body some =>
